@@ -61,7 +61,11 @@ func (e *Engine) callWith(st *State, fr *Frame, cc *ssa.CallCommon, fnv Value, a
 		key := e.objKey(cc.Method)
 		fc := e.Contracts[key]
 		if fc == nil {
-			// try the interface the method was declared in
+			if why, ok := e.NoEffect[cc.Method.Name()]; ok && cc.Method.Type().(*types.Signature).Results().Len() == 0 {
+				e.UsedAssumed[key+" (assumed to have no effect: "+why+")"] = true
+				k(st, nil)
+				return
+			}
 			e.fail("call of interface method %s without contract at %s", key, e.pos(pos))
 		}
 		nargs := append([]Value(nil), args...)
@@ -143,6 +147,30 @@ func (e *Engine) callFn(st *State, fr *Frame, fn *ssa.Function, bind []Value, ar
 	pure := st.PureDepth > 0 || fr.Pure
 	if e.Uninterp[fn] {
 		k(st, e.ufApp(st, "spec$"+name, fn.Signature.Results(), args))
+		return
+	}
+	if e.Opaque[fn] {
+		// opaque spec function: an uninterpreted function of its (flattened) arguments;
+		// the definition is attached to ground applications only where the contract of
+		// the function under verification asks for it ("opt reveal=name,name")
+		t := e.ufApp(st, "spec$"+name, fn.Signature.Results(), args).(*smt.Term)
+		reveal := false
+		if fr != nil && fr.V != nil && fr.V.FC != nil {
+			for _, r := range strings.Split(fr.V.FC.B.Opts["reveal"], ",") {
+				if strings.TrimSpace(r) == name {
+					reveal = true
+				}
+			}
+		}
+		if reveal && !t.HasBound() {
+			d := e.evalPure(st, fr, fn, nil, args).(*smt.Term)
+			eq := e.C.Eq(t, d)
+			if eq.Op == smt.OEq {
+				e.DefEqs[eq] = [2]*smt.Term{t, d}
+			}
+			st.Assume(eq)
+		}
+		k(st, t)
 		return
 	}
 	if e.GhostAcc[fn] {
@@ -289,6 +317,8 @@ func (e *Engine) intrinsic(st *State, fr *Frame, name string, fn *ssa.Function, 
 		return &intrRes{c.Select(e.heapArr(e.rd(st), "chan.armed", smt.Bool), e.chanTermOf(st, args[0]))}, true
 	case "gvcArmed":
 		return &intrRes{c.Select(e.chLastSent(e.rd(st)), e.chanTermOf(st, args[0]))}, true
+	case "gvcSameMap":
+		return &intrRes{c.Eq(args[0].(*smt.Term), args[1].(*smt.Term))}, true
 	case "gvcMapHas":
 		mt := fn.Signature.Params().At(0).Type()
 		hk, _, m := e.mapKeys(mt)
